@@ -1,0 +1,18 @@
+//go:build verif
+// +build verif
+
+package mysql
+
+import "github.com/XiaoMi/Gaea/util/bucketpool"
+
+// Add-only exports for the verification harness (build tag verif), property
+// C38 (ownership of the pooled packet buffers).
+
+// VerifBufPool returns the process-wide pool of packet buffers.
+func VerifBufPool() *bucketpool.Pool { return bufPool }
+
+// VerifEphemeral returns the connection's ephemeral-buffer bookkeeping:
+// the policy (0 unused, 1 write, 2 read) and the buffer it holds, if any.
+func (c *Conn) VerifEphemeral() (policy int, buf *[]byte) {
+	return c.currentEphemeralPolicy, c.currentEphemeralBuffer
+}
